@@ -391,6 +391,46 @@ def interface_lookup_exact(run):
             run.violation("interface:exception:%s" % type(e).__name__, "stack %s: interface lookup raised %r" % (name, e), {"shape": name})
 
 
+def subclass_event_handlers(run):
+    """Event handlers are per class: a layer class and a subclass that adds / overrides handlers may both be instantiated in one
+    process, in either order, and each instance sees exactly the events its own class handles."""
+    from yowsup.layers import YowLayer, YowLayerEvent, EventCallback
+    from yowsup.stacks import YowStack
+    for order in ("base-first", "sub-first"):
+        run.case(("subclass-handlers", order))
+        log = []
+
+        class Base(YowLayer):
+            @EventCallback("verif.e1")
+            def on_e1(self, ev):
+                log.append((type(self).__name__, "e1"))
+                return False
+
+        class Sub(Base):
+            @EventCallback("verif.e2")
+            def on_e2(self, ev):
+                log.append((type(self).__name__, "e2"))
+                return False
+
+        class Top(YowLayer):
+            pass
+        try:
+            stacks = {}
+            for cls in ((Base, Sub) if order == "base-first" else (Sub, Base)):
+                stacks[cls.__name__] = YowStack((cls, Top), reversed=False)
+            for name, st in stacks.items():
+                del log[:]
+                st.getLayer(1).broadcastEvent(YowLayerEvent("verif.e1"))
+                st.getLayer(1).broadcastEvent(YowLayerEvent("verif.e2"))
+                want = [(name, "e1")] + ([(name, "e2")] if name == "Sub" else [])
+                if log != want:
+                    run.violation("events:subclass-handlers", "layer class %s (classes instantiated %s): handlers called %s, expected %s" % (name, order, log, want), {"order": order})
+        except core.TooManyViolations:
+            raise
+        except Exception as e:
+            run.violation("events:subclass-handlers:exception:%s" % type(e).__name__, "subclassed layers raised %r" % (e,), {"order": order})
+
+
 def run():
     r = core.Run("C18", "model_checking")
     thorough = r.tier == "thorough"
@@ -448,6 +488,7 @@ def run():
     r.assumptions += core.ENV_ASSUMPTIONS[:1] + ["stack loop is stepped by rebinding yowsup.stacks.yowstack.time (sleep raises after one iteration)",
                       "members of a group after a consuming member, and siblings of an emitting member, are compared as don't-care (at most once)"]
     interface_lookup_exact(r)
+    subclass_event_handlers(r)
     return r.finish()
 
 
